@@ -17,7 +17,10 @@ void genH(const json &in, json &out) {
       guarded(out, "out", [&] {
         std::vector<Spline<T, p>> r;
         if (route == 0) {
-          const bspline::BSplineGenerator<T> gen(knots);
+          // in threaded mode the generator is a shared const object (C18)
+          const auto gp = cached<bspline::BSplineGenerator<T>>(std::string("Gen") + Codec<T>::name + in.at("knots").dump(),
+                                                              [&] { return new bspline::BSplineGenerator<T>(knots); });
+          const bspline::BSplineGenerator<T> &gen = *gp;
           r = gen.template generateBSplines<p>();
           out["ggrid"] = projGrid(gen.getGrid());
         } else if (route == 1) {
